@@ -841,7 +841,11 @@ def analyze(ctx, want):
             for p in ps:
                 cl = [e for e in p.events if e[0] == "call" and re.search(r"Vec::<.*>::clear$", e[2])]
                 sw = [e for e in p.events if e[0] == "call" and re.search(r"mem::swap", e[2])]
-                ok = len(cl) == 1 and "self.current_states" in S.vstr(cl[0][3][0]) and len(sw) == 1 and {S.vstr(a).lstrip("&") for a in sw[0][3]} == {"self.current_states", "self.next_states"} and p.events.index(cl[0]) < p.events.index(sw[0])
+                # `current.clear(); swap(current, next)` or `swap(current, next); next.clear()`: either way the new active set is what
+                # was collected and the collecting set starts the next round empty
+                swapped_ = len(sw) == 1 and {S.vstr(a).lstrip("&") for a in sw[0][3]} == {"self.current_states", "self.next_states"}
+                ok = len(cl) == 1 and swapped_ and (("self.current_states" in S.vstr(cl[0][3][0]) and p.events.index(cl[0]) < p.events.index(sw[0]))
+                                                    or ("self.next_states" in S.vstr(cl[0][3][0]) and p.events.index(cl[0]) > p.events.index(sw[0])))
                 ob("C12.d", "active-set-advances-to-next-and-next-is-emptied", ok,
                    "after the state loop: clear(%s), swap(%s)" % ([S.vstr(e[3][0]) for e in cl], [[S.vstr(a) for a in e[3]] for e in sw]), fd.loc())
                 emp = [(c, oo) for c, oo in p.conds if c[0] == "app" and re.search(r"Vec::<.*>::is_empty$", c[1]) and "current_states" in S.vstr(c)]
